@@ -406,6 +406,8 @@ c01_pipe!(c01_pipe_midpoint_3x2_c_ax0, i16, w16, 0i16, Midpoint, 3, 2, 6, 2, 0, 
 c01_pipe!(c01_pipe_linear_3x2_frev_ax0, i16, w16, 0i16, Linear, 3, 2, 6, 2, 4, 0, [T3[5], T3[0]], 10);
 //@ prop=C01,C03:thorough,C20:thorough tier=quick mem=8 timeout=3000 flags=modelmap uses=cut inst="quantiles_axis_mut(Axis(1), [0.75, 0.0], Nearest) on ArrayViewMut2<i8> 2x3 C-order rows reversed (contiguous, lane stride +1)" bounds="all lane contents; unwind 10"
 c01_pipe!(c01_pipe_nearest_2x3_crowrev_ax1, i8, id8, 0i8, Nearest, 2, 3, 6, 2, 5, 1, [T3[4], T3[0]], 10);
+//@ prop=C01,C03,C20:thorough tier=quick mem=8 timeout=3000 flags=modelmap uses=cut inst="quantiles_axis_mut(Axis(1), [0.5, 1.0], Lower) on ArrayViewMut2<i8> 2x3 F-order (contiguous, quantile axis = last axis, lanes NOT contiguous)" bounds="all lane contents; unwind 10"
+c01_pipe!(c01_pipe_lower_2x3_f_ax1, i8, id8, 0i8, Lower, 2, 3, 6, 2, 1, 1, [T3[2], T3[1]], 10);
 //@ prop=C01 tier=quick mem=6 timeout=3000 flags=modelmap uses=cut inst="quantiles_axis_mut with an EMPTY request list on ArrayViewMut2<i8> 2x2" bounds="0 requests; unwind 10"
 c01_pipe!(c01_pipe_lower_2x2_noreq, i8, id8, 0i8, Lower, 2, 2, 4, 0, 0, 1, [], 10);
 
